@@ -325,6 +325,8 @@ def generate(prop, seed, tier="quick", fault_free=False):
             # ones (sim/simid.py) - builds of one node follow each other in one process and
             # each query dies when the next one is built
             nd["simid"] = x.randrange(2 ** 31) if x.random() < 0.5 else None
+            if x.random() < 0.06:
+                nd["prehistory"] = x.choice([600, 1500])  # volume: a long-lived process
             # logging configured by the application of that node (root logger, formatting handler)
             nd["log_level"] = x.choice([None, None, "WARNING", "INFO", "DEBUG", "DEBUG"])
         for op in ops:
